@@ -27,9 +27,22 @@ def run_property(prop, tier, seed, root=None, overrides=None, quiet=False):
         exp = getattr(mod, 'PINNED_EXPECT', None)
         if exp and root is None and overrides is None:
             fixtures = run_pinned(mod, prop, tier, seed, exp)
+        extra = getattr(ctx, 'extra', None) or {}
+        if tier == 'thorough' and root is None and overrides is None:
+            clean = not any(o.verdict in (report.VIOLATION, report.UNDECIDED) for o in ctx.obs if not o.fixture)
+            if clean:
+                from . import selfval
+                summ, fx = selfval.validate(prop)
+                fixtures = (fixtures or []) + fx
+                extra['self_validation'] = summ
+                extra['self_validation_note'] = ('breaking edits (hand-written catalogue + independently seeded patches) '
+                                                 'must be reported, benign edits must stay silent; evaluated on '
+                                                 'in-memory variants of the current tree')
+            else:
+                extra['self_validation'] = 'not run: the current tree has open violations / undecided obligations'
         return report.finish(ctx, getattr(mod, 'FLOORS', {}), mod.EXPLANATION, mod.RULE_TEXT,
                              getattr(mod, 'LEVEL', ''), t0, fixtures=fixtures,
-                             extra=getattr(ctx, 'extra', None), quiet=quiet)
+                             extra=extra or None, quiet=quiet)
     except AnalysisError as e:
         where = ''
         if e.node is not None and hasattr(e.node, 'lineno'):
